@@ -409,6 +409,34 @@ pub fn mutate_ast(u: &mut Unstructured, m: &mut Module) -> &'static str {
             f.body.insert(pos, c);
             "sign-extension"
         }
+        39 if nf > 0 => {
+            // move a local access onto the end of a locals range: the first index of the next
+            // declaration group (possibly of the other type) or exactly the number of locals
+            let np = m.types.get(m.funcs[fi].ty as usize).map(|t| t.params.len()).unwrap_or(0) as u64;
+            let f = &mut m.funcs[fi];
+            let mut ends: Vec<u64> = vec![np];
+            let mut acc = np;
+            for (n, _) in f.locals.iter() {
+                acc += *n as u64;
+                ends.push(acc);
+            }
+            let cands: Vec<usize> = f
+                .body
+                .iter()
+                .enumerate()
+                .filter(|(_, o)| matches!(o, Op::LocalGet(_) | Op::LocalSet(_) | Op::LocalTee(_)))
+                .map(|(i, _)| i)
+                .collect();
+            if !cands.is_empty() {
+                let pos = *g::choose(u, &cands);
+                // the last end (= number of locals) half of the time
+                let e = if g::byte(u) % 2 == 0 { *ends.last().unwrap() } else { *g::choose(u, &ends) };
+                if let Op::LocalGet(x) | Op::LocalSet(x) | Op::LocalTee(x) = &mut f.body[pos] {
+                    *x = e.min(u32::MAX as u64) as u32;
+                }
+            }
+            "local-index-at-range-end"
+        }
         _ => {
             if nf > 0 {
                 let f = &mut m.funcs[fi];
